@@ -434,7 +434,8 @@ void check_template_arg(Chunk *start, Chunk *end)
    bool  expressionIsNumeric = false;
    Chunk *pc                 = start;
 
-   while (pc != end)
+   while (  pc != end
+         && pc->IsNotNullChunk())                     // 'end' may lie in another preprocessor scope
    {
       Chunk *next = pc->GetNextNcNnl(E_Scope::PREPROC);
       pc->SetFlagBits(PCF_IN_TEMPLATE);
@@ -466,7 +467,8 @@ void check_template_arg(Chunk *start, Chunk *end)
    {
       pc = start;
 
-      while (pc != end)
+      while (  pc != end
+            && pc->IsNotNullChunk())
       {
          Chunk *next = pc->GetNextNcNnl(E_Scope::PREPROC);
          pc->SetFlagBits(PCF_IN_TEMPLATE);
